@@ -141,6 +141,8 @@ def o_source(a):
             src = list(roi.values())[0]
             eph = src.ephemeris
             gtis = [(start, start + 150.), (start + 260., start + 600.)]
+            if start == 0.:
+                gtis = [(start + 41.7, start + 150.), (start + 260., start + 600.)]       # a run starting at MET 0 exactly, the first good time later
             simdrive.simulate(simdrive.config_path('toy_periodic_source.py'), path, gtis=gtis, du_id=a['du'], seed=a['seed'] + i, roi_model=roi, start_met=start, duration=600.)
             paths.append(path)
         e = eph.dict()
@@ -256,7 +258,7 @@ def explore(chk, budget=1):
         eph = dict(met0=start - float(g.choice([0., 1234.567])), nu0=nu0, nudot0=float(g.choice([0., -1e-12])), nuddot=0.)
         run_oracle(chk, 'rvs', dict(eph=eph, start=start, duration=c['periods'] / nu0, profile=c['profile'], n=c['n'], seed=int(g.integers(1, 10 ** 6))),
                    nontrivial=abs(c['periods'] - round(c['periods'])) > 0.01)
-    run_oracle(chk, 'source', dict(starts=[20000., 31234.567891], du=int(g.integers(1, 4)), seed=int(g.integers(1, 10 ** 6))))
+    run_oracle(chk, 'source', dict(starts=[20000., 31234.567891, 0.], du=int(g.integers(1, 4)), seed=int(g.integers(1, 10 ** 6))))
     for start in (0., 12345.678, float(g.uniform(1e3, 1e6))):
         run_oracle(chk, 'seedflow', dict(start=start, du=int(g.integers(1, 4)), seed=int(g.integers(1, 10 ** 6))), nontrivial=start != 0.)
         run_oracle(chk, 'seedflow', dict(start=start, du=int(g.integers(1, 4)), seed=int(g.integers(1, 10 ** 6)), late=float(g.uniform(5., 60.))), nontrivial=True)
